@@ -238,9 +238,9 @@ def neighbours(ctx):
     symbolic - the id of a cell is then linear; that ids equal table ranks for ALL shapes is C09's id_formula."""
     if ctx.part["ret"] == "int":
         WH = ctx.part.get("WH", 3)
-        for cw in range(WH + 1):
+        for cw in ([ctx.part["W_only"]] if "W_only" in ctx.part else range(WH + 1)):
             for ch in range(WH + 1):
-                _neighbours(ctx, cw, ch, first=(cw == 0 and ch == 0))
+                _neighbours(ctx, cw, ch, first=(ch == 0 and cw == ctx.part.get('W_only', 0)))
                 if ctx.cex is not None or ctx.q.failed is not None:
                     return
         return
